@@ -1,5 +1,6 @@
 """C16 — HTTP body compression round-trips and the decompressed-size limit holds."""
 import os
+import re
 import vlib
 
 HERE = os.path.dirname(os.path.abspath(__file__))
@@ -29,11 +30,14 @@ class P(vlib.Prop):
                                   {"zz_verif_c16_test.go": "C16/compress_test.go",
                                    "zz_verif_c16_tables_test.go": "C16/tables_test.go"},
                                   "^TestVerifC16Tables$", "confighttp", timeout=600)
-    coq_targets = ["C16/Properties.vo", "C16/Witness.vo", "C16/Harness.vo", "C16/Tie.vo"]
+    coq_targets = ["C16/Properties.vo", "C16/Witness.vo", "C16/Harness.vo", "C16/Check.vo", "C16/Tie.vo", "C16/TieDiff.vo"]
     properties_module = "C16.Properties"
     properties_file = "C16/Properties.v"
     instance_obligations = []  # the tie obligations are the tie_* theorems of Properties.v
-    harness_module = "C16.Harness"
+    # C16/Check.v (exports Harness.v): check_all = check_case (model vs implementation) && prop_ok (the decidable
+    # checker of the property's clauses over the OBSERVED behaviour, sound by C16/ClausesSound.v)
+    harness_module = "C16.Check"
+    check_fn = "check_all"
     case_type = "vcase"
     shard = 40
     harnesses = [
@@ -89,6 +93,8 @@ class P(vlib.Prop):
         "(C16/Tie.v) prove IsCompressed, UnmarshalText, ValidateParams (levels -12..30 and outliers), ClientConfig.Validate, "
         "the type->writer dispatch, availableDecoders, the decoder map built by httpContentDecompressor (every singleton list "
         "and others) and the ToServer defaults equal to the model on the dumped domains",
+        "C16/Check.v prop_ok (decidable checker of the property's clauses over the observed behaviour, sound and complete for "
+        "the four core clauses by clauses_sound) evaluated on every case: an oracle that does not use the model's client/server",
         "hand-written model C16/Model.v of configcompression (IsCompressed, ValidateParams), ClientConfig.Validate/ToClient "
         "(compression part), newWriteCloserResetFunc, compressRoundTripper.RoundTrip, availableDecoders, "
         "httpContentDecompressor, decompressor.ServeHTTP/newBodyReader, ToServer defaulting and middleware order, "
@@ -143,3 +149,65 @@ class P(vlib.Prop):
         ctx.translator_manifests.append({"file": "harness/C16/tables_test.go (run against /repo/config/confighttp)",
                                          "lines": None, "sha256": None,
                                          "defines": [n for _, n, _, _ in TABLES], "params": None})
+
+    CLAUSE = {1: "roundtrip", 2: "passthrough", 3: "unsupported-not-rejected", 4: "limit-exceeded",
+              5: "decoded-stream", 6: "body-touched", 7: "server-panic"}
+
+    def extra_checks(self, ctx):
+        """Failing-input search, part 1: every case on which check_all failed is diagnosed in Coq: does the model
+        agree with the implementation, and which clauses of the property does the OBSERVED behaviour violate?  A
+        violated clause makes the case a failing input of the property (oracle kind clause-<name>); a case that only
+        disagrees with the model stays a correspondence disagreement."""
+        if ctx.mismatches:
+            terms = [m["term"] for m in ctx.mismatches]
+            res = vlib.coq_eval_term(ctx, self.harness_module, "map diagnose [%s]" % "; ".join(terms), timeout=600)
+            open(os.path.join(ctx.work, "diagnose.txt"), "w").write(res)
+            diag = re.findall(r"\(\s*(true|false)\s*,\s*\[([^\]]*)\]\s*\)", res)
+            if len(diag) != len(terms):
+                ctx.notes.append("clause diagnosis could not be parsed (%d terms, %d results): %s ... %s" % (len(terms), len(diag), res[:200], res[-300:]))
+            else:
+                keep = []
+                for m, (agree, fails) in zip(ctx.mismatches, diag):
+                    nums = [int(x) for x in re.findall(r"\d+", fails)]
+                    if nums:
+                        ctx.oracle.append({"kind": "clause-" + self.CLAUSE.get(nums[0], str(nums[0])), "term": m["term"],
+                                           "harness": m["harness"],
+                                           "detail": "Coq clause checker (C16/Check.v, sound by clauses_sound) on the OBSERVED "
+                                                     "behaviour: violated clause(s) %s; the model %s with the implementation on this case"
+                                                     % ([self.CLAUSE.get(n, n) for n in nums], "agrees" if agree == "true" else "disagrees")})
+                    if agree == "false":
+                        keep.append(m)
+                ctx.mismatches[:] = keep
+        self.tie_search(ctx)
+
+    def tie_search(self, ctx):
+        """Failing-input search, part 2: an obligation of C16/Tie.v no longer proves => enumerate the dumped domains for
+        the arguments on which the regenerated table and the model differ (C16/TieDiff.v, evaluated in Coq) and run the
+        implementation on requests built around exactly those arguments (harness focus mode), direct oracle on."""
+        if not any("Tie.v" in w for w, _ in ctx.broken):
+            return
+        try:
+            vlib.coq_make(ctx, ["C16/TieDiff.vo"])
+        except vlib.Broken as b:
+            ctx.notes.append("tie search: TieDiff.v does not build: " + b.what)
+            return
+        res = vlib.coq_eval_term(ctx, "C16.TieDiff", "tie_diffs", timeout=300)
+        rows = re.findall(r'\(\s*(\d+)%N\s*,\s*"([^"]*)"%string\s*,\s*\(?(-?\d+)\)?%Z\s*,\s*\[([^\]]*)\]\s*\)', res)
+        if not rows:
+            ctx.notes.append("tie search: no differing argument found in the dumped domains: " + res[:200])
+            return
+        focus = []
+        for tag, name, lvl, lst in rows[:40]:
+            names = re.findall(r'"([^"]*)"%string', lst)
+            focus.append("|".join([tag, name, lvl, ",".join(names)]))
+        ctx.notes.append("tie search: %d differing argument(s), e.g. %s" % (len(rows), focus[:5]))
+        h = self.harnesses[0]
+        fh = vlib.Harness("focus", h.module, h.pkg, h.files, h.run, h.gopkg, timeout=h.timeout,
+                          extra_env={"VERIF_C16_FOCUS": ";".join(focus)})
+        cases, oracle, _stats, err = vlib.run_harness(ctx, fh, tier="quick")
+        ctx.log("tie search: %d focused case(s), %d oracle failure(s)" % (len(cases), len(oracle)))
+        for f in oracle:
+            f["detail"] = "[focused on an argument where the regenerated table and the model differ] " + f["detail"]
+        ctx.oracle += oracle
+        if err:
+            ctx.notes.append("tie search: focused harness run did not complete: " + err.what)
